@@ -4,6 +4,7 @@
 (* PseudoRead.tla.  One event per molecule:                                                      *)
 (*  {"ev":"pseudo","tid":n,"via":"api"|"api_hist"|"cli"|"cli_nosrc","maxN":k (-1 = None),"chrom":"chr1",  *)
 (*   "strand":b,"mol":{"SM","RX","DS":site,"TF":associated+overflow fragments,"af":associated}, *)
+(*   "frag_sites":[cut site of every accepted fragment] (DS must be the outermost: min forward, max reverse),  *)
 (*   "umis":[UMI of every accepted fragment],"bc":barcode,                                        *)
 (*   "reads":[{"start":s,"cigar":[{"op","n"}],"seq":[..],"q":[..]},..],   every mapped read      *)
 (*   "ref":{"start":s0,"seq":[..]},                     the reference over the molecule's span  *)
@@ -45,7 +46,8 @@ TagClause(rs, e) ==
     IN IF bad("SM") THEN "Inv_C15_Tags_SM"
        ELSE IF \E i \in DOMAIN rs : ~Has(rs[i].tags, "RX") \/ rs[i].tags.RX \notin modes THEN "Inv_C15_Tags_RX"
        ELSE IF \E i \in DOMAIN rs : Has(rs[i].tags, "MI") /\ rs[i].tags.MI \notin { e.bc \o u : u \in modes } THEN "Inv_C15_Tags_MI"
-       ELSE IF bad("DS") THEN "Inv_C15_Tags_DS" ELSE IF bad("TF") THEN "Inv_C15_Tags_TF"
+       ELSE IF \E i \in DOMAIN rs : ~Has(rs[i].tags, "DS") \/ rs[i].tags.DS # ExpSite(e.frag_sites, e.strand) THEN "Inv_C15_Tags_DS"
+       ELSE IF bad("TF") THEN "Inv_C15_Tags_TF"
        ELSE IF \E i \in DOMAIN rs : Has(rs[i].tags, "af") /\ rs[i].tags.af # mol.af THEN "Inv_C15_Tags_af" ELSE "ok"
 
 PseudoVerdict(e) ==
@@ -63,8 +65,10 @@ PseudoVerdict(e) ==
        ELSE IF ~Inv_Call(rs, cf) THEN "Inv_C15_Call"
        ELSE TagClause(rs, e)
 
-(* via "crd": Molecule.get_consensus_read() with its defaults - not an entry the property names: observation only *)
-Verdict(e) == IF e.ev = "pseudo" /\ e.via = "crd" THEN "ok"
+(* via "crd": Molecule.get_consensus_read() with its defaults - not an entry the property names: observation only.
+   via "cli_halfmapped": a command-line run whose BAM also holds a half-mapped pair: observation only (see docs/C15.md) *)
+ObservedOnly(e) == e.ev = "pseudo" /\ e.via \in {"crd", "cli_halfmapped"}
+Verdict(e) == IF ObservedOnly(e) THEN "ok"
               ELSE IF e.ev = "pseudo" THEN PseudoVerdict(e)
               ELSE IF e.ev = "orphan" THEN "Inv_C15_Blocks_record_outside_every_molecule"
               ELSE "unknown_event"
@@ -73,6 +77,7 @@ Verdict(e) == IF e.ev = "pseudo" /\ e.via = "crd" THEN "ok"
    as the design model cuts them (not part of the statement) *)
 Notes(line, e) ==
     IF e.ev = "pseudo" /\ e.via = "crd" THEN Note(line, e.tid, "default_get_consensus_read_" \o PseudoVerdict(e))
+    ELSE IF e.ev = "pseudo" /\ e.via = "cli_halfmapped" THEN Note(line, e.tid, "cli_bam_with_half_mapped_pair_" \o PseudoVerdict(e))
     ELSE IF e.ev # "pseudo" \/ Has(e, "raised") THEN TRUE
     ELSE LET cf == ConfOf(e.reads)
              rs == [ i \in DOMAIN e.records |-> RecOf(e.records[i]) ]
@@ -83,7 +88,7 @@ Notes(line, e) ==
             /\ (IF ~cutok THEN Note(line, e.tid, "divergence_split_differs_from_design") ELSE TRUE)
 
 TInit == /\ l = 1
-         /\ ref = <<>> /\ maxN = 0 /\ strand = FALSE /\ nfrag = 0 /\ nreads = 0 /\ umis = <<>> /\ overflow = 0 /\ open = FALSE /\ conf = <<>>
+         /\ ref = <<>> /\ maxN = 0 /\ strand = FALSE /\ nfrag = 0 /\ nreads = 0 /\ sites = <<>> /\ umis = <<>> /\ overflow = 0 /\ open = FALSE /\ conf = <<>>
          /\ pc = "trace" /\ calls = <<>> /\ cigar = <<>> /\ ix = 0 /\ refpos = 0 /\ refstart = 0 /\ refend = 0
          /\ pCigar = <<>> /\ pSeq = <<>> /\ recs = <<>> /\ raised = FALSE
 TNext == /\ l <= Len(Log)
